@@ -287,92 +287,101 @@ theorem aRem_aid (w : World) (id : Nat) (hg : ATOM_TO_GROUP id = AIDGROUP) :
 theorem mem_delF {w : World} {p : Nat} {e : Nat × FRec} : e ∈ (delF w p).frecs ↔ e ∈ w.frecs ∧ e.1 ≠ p := by
   simp [delF]
 
+theorem hcloseRec_wf (w : World) (id p : Nat) (r : FRec) (h : WF w) (hg : ATOM_TO_GROUP id = FIDGROUP)
+    (e0 : Info) (hfind : w.fidg.live.find? (fun e => e.id == id) = some e0) (hobj : e0.obj = p) (hget : getF w p = some r) :
+    WF (hcloseRec w id p r).1 := by
+  unfold hcloseRec
+  have hmem := getF_mem hget
+  have hcnt (q : Nat) := countP_eraseP_find (fun e : Info => e.id == id) (fun i : Info => i.obj == q) w.fidg.live e0 hfind
+  split
+  · rename_i h1
+    split
+    · exact h
+    · -- last reference: the record goes away
+      obtain ⟨r1, r2, r3, r4, r5, r6⟩ := aRem_fid (delF w p) id hg
+      simp only [delF_fidg, delF_aidg, delF_arecs, delF_nobj, delF_leaked] at r1 r2 r4 r5 r6
+      have hr1 : r.refcount = 1 := by simpa using h1
+      have hp0 : (w.fidg.live.eraseP (fun e => e.id == id)).countP (fun i => i.obj == p) = 0 := by
+        have := hcnt p
+        have h2 := (h.refc (p, r) hmem).1
+        simp only [hobj, beq_self_eq_true, if_true] at this
+        simp only [] at h2
+        omega
+      refine ⟨?_, ?_, ?_, ?_, ?_, ?_, ?_, ?_, ?_⟩
+      · rw [r3]; exact (h.fkeys.sublist (List.Sublist.map _ List.filter_sublist))
+      · rw [r4]; exact h.akeys
+      · intro e he; rw [r3] at he; rw [r5]; exact h.fptr e (mem_delF.mp he).1
+      · intro e he; rw [r4] at he; rw [r5]; exact h.aptr e he
+      · intro i hi
+        rw [r1] at hi
+        have hi' : i ∈ w.fidg.live := List.mem_of_mem_eraseP hi
+        obtain ⟨e, he, heq⟩ := h.fobj i hi'
+        refine ⟨e, ?_, heq⟩
+        rw [r3]; refine mem_delF.mpr ⟨he, ?_⟩
+        intro hep
+        have : 0 < (w.fidg.live.eraseP (fun e => e.id == id)).countP (fun i => i.obj == p) :=
+          List.countP_pos_iff.mpr ⟨i, hi, by simp [← heq, hep]⟩
+        omega
+      · intro i hi; rw [r2] at hi; rw [r4]; exact h.aobj i hi
+      · intro e he
+        rw [r3] at he
+        obtain ⟨he', hne⟩ := mem_delF.mp he
+        have := hcnt e.1
+        have hb : (e0.obj == e.1) = false := by rw [hobj]; simpa using (Ne.symm hne)
+        simp only [hb, Bool.false_eq_true, if_false, Nat.add_zero] at this
+        rw [r1, this]; exact h.refc e he'
+      · intro a ha; rw [r4] at ha; rw [r2]; exact h.aone a ha
+      · rw [r3]; exact (h.paths.sublist (List.Sublist.map _ List.filter_sublist))
+  · -- other references remain
+    rename_i h1
+    obtain ⟨r1, r2, r3, r4, r5, r6⟩ := aRem_fid (setF w p { r with refcount := r.refcount - 1 }) id hg
+    simp only [setF_fidg, setF_aidg, setF_arecs, setF_nobj, setF_leaked] at r1 r2 r4 r5 r6
+    have hr1 : r.refcount ≠ 1 := by simpa using h1
+    refine ⟨?_, ?_, ?_, ?_, ?_, ?_, ?_, ?_, ?_⟩
+    · rw [r3, setF_keys]; exact h.fkeys
+    · rw [r4]; exact h.akeys
+    · intro e he; rw [r3] at he; rw [r5]
+      rcases mem_setF he with ⟨rfl, _⟩ | ⟨he', _⟩
+      · exact h.fptr (p, r) hmem
+      · exact h.fptr e he'
+    · intro e he; rw [r4] at he; rw [r5]; exact h.aptr e he
+    · intro i hi
+      rw [r1] at hi
+      obtain ⟨e, he, heq⟩ := h.fobj i (List.mem_of_mem_eraseP hi)
+      rw [r3]
+      by_cases hep : e.1 = p
+      · exact ⟨(p, _), mem_setF_of hmem, by rw [← heq, hep]⟩
+      · exact ⟨e, mem_setF_other he hep, heq⟩
+    · intro i hi; rw [r2] at hi; rw [r4]; exact h.aobj i hi
+    · intro e he
+      rw [r3] at he
+      rw [r1]
+      rcases mem_setF he with ⟨rfl, _⟩ | ⟨he', hne⟩
+      · have := hcnt p
+        have h2 := h.refc (p, r) hmem
+        simp only [hobj, beq_self_eq_true, if_true] at this
+        simp only [setF_fidg] at this ⊢
+        simp only [] at h2 ⊢
+        constructor <;> omega
+      · have := hcnt e.1
+        have hb : (e0.obj == e.1) = false := by rw [hobj]; simpa using (Ne.symm hne)
+        simp only [hb, Bool.false_eq_true, if_false, Nat.add_zero, setF_fidg] at this ⊢
+        rw [this]; exact h.refc e he'
+    · intro a ha; rw [r4] at ha; rw [r2]; exact h.aone a ha
+    · rw [r3, setF_paths w p { r with refcount := r.refcount - 1 } r h.fkeys hmem rfl]; exact h.paths
+
+
+
 theorem hclose_wf (cfg : Cfg) (hk : cfg.kindChecked = true) (w : World) (id : Nat) (h : WF w) : WF (hclose cfg w id).1 := by
   unfold hclose
   split
   · exact h
   · exact h
   · rename_i p r hl
-    obtain ⟨hg, ⟨e0, hfind, hobj⟩, hget, hrc⟩ := lookF_file hk hl
-    have hmem := getF_mem hget
-    have hcnt (q : Nat) := countP_eraseP_find (fun e : Info => e.id == id) (fun i : Info => i.obj == q) w.fidg.live e0 hfind
+    obtain ⟨hg, ⟨e0, hfind, hobj⟩, hget, _⟩ := lookF_file hk hl
     split
-    · rename_i h1
-      split
-      · exact h
-      · -- last reference: the record goes away
-        obtain ⟨r1, r2, r3, r4, r5, r6⟩ := aRem_fid (delF w p) id hg
-        simp only [delF_fidg, delF_aidg, delF_arecs, delF_nobj, delF_leaked] at r1 r2 r4 r5 r6
-        have hr1 : r.refcount = 1 := by simpa using h1
-        have hp0 : (w.fidg.live.eraseP (fun e => e.id == id)).countP (fun i => i.obj == p) = 0 := by
-          have := hcnt p
-          have h2 := (h.refc (p, r) hmem).1
-          simp only [hobj, beq_self_eq_true, if_true] at this
-          simp only [] at h2
-          omega
-        refine ⟨?_, ?_, ?_, ?_, ?_, ?_, ?_, ?_, ?_⟩
-        · rw [r3]; exact (h.fkeys.sublist (List.Sublist.map _ List.filter_sublist))
-        · rw [r4]; exact h.akeys
-        · intro e he; rw [r3] at he; rw [r5]; exact h.fptr e (mem_delF.mp he).1
-        · intro e he; rw [r4] at he; rw [r5]; exact h.aptr e he
-        · intro i hi
-          rw [r1] at hi
-          have hi' : i ∈ w.fidg.live := List.mem_of_mem_eraseP hi
-          obtain ⟨e, he, heq⟩ := h.fobj i hi'
-          refine ⟨e, ?_, heq⟩
-          rw [r3]; refine mem_delF.mpr ⟨he, ?_⟩
-          intro hep
-          have : 0 < (w.fidg.live.eraseP (fun e => e.id == id)).countP (fun i => i.obj == p) :=
-            List.countP_pos_iff.mpr ⟨i, hi, by simp [← heq, hep]⟩
-          omega
-        · intro i hi; rw [r2] at hi; rw [r4]; exact h.aobj i hi
-        · intro e he
-          rw [r3] at he
-          obtain ⟨he', hne⟩ := mem_delF.mp he
-          have := hcnt e.1
-          have hb : (e0.obj == e.1) = false := by rw [hobj]; simpa using (Ne.symm hne)
-          simp only [hb, Bool.false_eq_true, if_false, Nat.add_zero] at this
-          rw [r1, this]; exact h.refc e he'
-        · intro a ha; rw [r4] at ha; rw [r2]; exact h.aone a ha
-        · rw [r3]; exact (h.paths.sublist (List.Sublist.map _ List.filter_sublist))
-    · -- other references remain
-      rename_i h1
-      obtain ⟨r1, r2, r3, r4, r5, r6⟩ := aRem_fid (setF w p { r with refcount := r.refcount - 1 }) id hg
-      simp only [setF_fidg, setF_aidg, setF_arecs, setF_nobj, setF_leaked] at r1 r2 r4 r5 r6
-      have hr1 : r.refcount ≠ 1 := by simpa using h1
-      refine ⟨?_, ?_, ?_, ?_, ?_, ?_, ?_, ?_, ?_⟩
-      · rw [r3, setF_keys]; exact h.fkeys
-      · rw [r4]; exact h.akeys
-      · intro e he; rw [r3] at he; rw [r5]
-        rcases mem_setF he with ⟨rfl, _⟩ | ⟨he', _⟩
-        · exact h.fptr (p, r) hmem
-        · exact h.fptr e he'
-      · intro e he; rw [r4] at he; rw [r5]; exact h.aptr e he
-      · intro i hi
-        rw [r1] at hi
-        obtain ⟨e, he, heq⟩ := h.fobj i (List.mem_of_mem_eraseP hi)
-        rw [r3]
-        by_cases hep : e.1 = p
-        · exact ⟨(p, _), mem_setF_of hmem, by rw [← heq, hep]⟩
-        · exact ⟨e, mem_setF_other he hep, heq⟩
-      · intro i hi; rw [r2] at hi; rw [r4]; exact h.aobj i hi
-      · intro e he
-        rw [r3] at he
-        rw [r1]
-        rcases mem_setF he with ⟨rfl, _⟩ | ⟨he', hne⟩
-        · have := hcnt p
-          have h2 := h.refc (p, r) hmem
-          simp only [hobj, beq_self_eq_true, if_true] at this
-          simp only [setF_fidg] at this ⊢
-          simp only [] at h2 ⊢
-          constructor <;> omega
-        · have := hcnt e.1
-          have hb : (e0.obj == e.1) = false := by rw [hobj]; simpa using (Ne.symm hne)
-          simp only [hb, Bool.false_eq_true, if_false, Nat.add_zero, setF_fidg] at this ⊢
-          rw [this]; exact h.refc e he'
-      · intro a ha; rw [r4] at ha; rw [r2]; exact h.aone a ha
-      · rw [r3, setF_paths w p { r with refcount := r.refcount - 1 } r h.fkeys hmem rfl]; exact h.paths
-
+    · exact h
+    · exact hcloseRec_wf w id p r h hg e0 hfind hobj hget
 
 theorem lookA_acc {cfg : Cfg} (hk : cfg.kindChecked = true) {w : World} {id q : Nat} {a : ARec} (h : lookA cfg w id = .acc q a) :
     ATOM_TO_GROUP id = AIDGROUP ∧ (∃ e, w.aidg.live.find? (fun e => e.id == id) = some e ∧ e.obj = q) ∧ getA w q = some a := by
@@ -688,6 +697,41 @@ theorem eraseF_wfa (w w' : World) (id : Nat) (h : WFA w) (hl : w'.fidg.live = w.
 theorem aRem_fid_nextid (w : World) (id : Nat) (hg : ATOM_TO_GROUP id = FIDGROUP) : (aRem w id).fidg.nextid = w.fidg.nextid := by
   unfold aRem; simp [hg]
 
+theorem hcloseRec_wfa (w : World) (id p : Nat) (r : FRec) (hw : WF w) (h : WFA w) (hg : ATOM_TO_GROUP id = FIDGROUP)
+    (hget : getF w p = some r) : WFA (hcloseRec w id p r).1 := by
+  unfold hcloseRec
+  have hmem := getF_mem hget
+  split
+  · split
+    · exact h
+    · rename_i hat
+      have hat0 : r.attach = 0 := by omega
+      have h0 := h.att (p, r) hmem
+      simp only [hat0] at h0
+      have hA : w.arecs.countP (fun a => a.2.file == p) = 0 := by omega
+      have hL : w.leaked.countP (fun x => x == p) = 0 := by omega
+      obtain ⟨r1, r2, r3, r4, r5, r6⟩ := aRem_fid (delF w p) id hg
+      simp only [delF_fidg, delF_aidg, delF_arecs, delF_nobj, delF_leaked] at r1 r2 r4 r5 r6
+      have hdel : WFA (delF w p) := by
+        refine ⟨?_, ?_, ?_, h.issued, h.fissued, h.fnodup, h.link⟩
+        · intro e he; exact h.att e (mem_delF.mp he).1
+        · intro a ha
+          obtain ⟨e, he, heq⟩ := h.afile a ha
+          refine ⟨e, mem_delF.mpr ⟨he, ?_⟩, heq⟩
+          intro hep
+          have := (List.countP_eq_zero.mp hA) a ha
+          simp [← heq, hep] at this
+        · intro x hx
+          obtain ⟨e, he, heq⟩ := h.lfile x hx
+          refine ⟨e, mem_delF.mpr ⟨he, ?_⟩, heq⟩
+          intro hep
+          have := (List.countP_eq_zero.mp hL) x hx
+          simp [← heq, hep] at this
+      exact eraseF_wfa (delF w p) _ id hdel r1 (aRem_fid_nextid _ id hg) r3 r4 r6
+  · obtain ⟨r1, r2, r3, r4, r5, r6⟩ := aRem_fid (setF w p { r with refcount := r.refcount - 1 }) id hg
+    exact eraseF_wfa (setF w p { r with refcount := r.refcount - 1 }) _ id (setF_same_attach_wfa w p r { r with refcount := r.refcount - 1 } h hmem rfl) r1 (aRem_fid_nextid _ id hg) r3 r4 r6
+
+
 theorem hclose_wfa (cfg : Cfg) (hk : cfg.kindChecked = true) (w : World) (id : Nat) (hw : WF w) (h : WFA w) : WFA (hclose cfg w id).1 := by
   unfold hclose
   split
@@ -695,36 +739,9 @@ theorem hclose_wfa (cfg : Cfg) (hk : cfg.kindChecked = true) (w : World) (id : N
   · exact h
   · rename_i p r hl
     obtain ⟨hg, _, hget, _⟩ := lookF_file hk hl
-    have hmem := getF_mem hget
     split
-    · split
-      · exact h
-      · rename_i hat
-        have hat0 : r.attach = 0 := by omega
-        have h0 := h.att (p, r) hmem
-        simp only [hat0] at h0
-        have hA : w.arecs.countP (fun a => a.2.file == p) = 0 := by omega
-        have hL : w.leaked.countP (fun x => x == p) = 0 := by omega
-        obtain ⟨r1, r2, r3, r4, r5, r6⟩ := aRem_fid (delF w p) id hg
-        simp only [delF_fidg, delF_aidg, delF_arecs, delF_nobj, delF_leaked] at r1 r2 r4 r5 r6
-        have hdel : WFA (delF w p) := by
-          refine ⟨?_, ?_, ?_, h.issued, h.fissued, h.fnodup, h.link⟩
-          · intro e he; exact h.att e (mem_delF.mp he).1
-          · intro a ha
-            obtain ⟨e, he, heq⟩ := h.afile a ha
-            refine ⟨e, mem_delF.mpr ⟨he, ?_⟩, heq⟩
-            intro hep
-            have := (List.countP_eq_zero.mp hA) a ha
-            simp [← heq, hep] at this
-          · intro x hx
-            obtain ⟨e, he, heq⟩ := h.lfile x hx
-            refine ⟨e, mem_delF.mpr ⟨he, ?_⟩, heq⟩
-            intro hep
-            have := (List.countP_eq_zero.mp hL) x hx
-            simp [← heq, hep] at this
-        exact eraseF_wfa (delF w p) _ id hdel r1 (aRem_fid_nextid _ id hg) r3 r4 r6
-    · obtain ⟨r1, r2, r3, r4, r5, r6⟩ := aRem_fid (setF w p { r with refcount := r.refcount - 1 }) id hg
-      exact eraseF_wfa (setF w p { r with refcount := r.refcount - 1 }) _ id (setF_same_attach_wfa w p r { r with refcount := r.refcount - 1 } h hmem rfl) r1 (aRem_fid_nextid _ id hg) r3 r4 r6
+    · exact h
+    · exact hcloseRec_wfa w id p r hw h hg hget
 
 theorem startAccess_wfa (cfg : Cfg) (hk : cfg.kindChecked = true) (w : World) (id : Nat) (fnd wr : Bool) (hw : WF w) (h : WFA w) :
     WFA (startAccess cfg w id fnd wr).1 := by
@@ -917,7 +934,7 @@ theorem step_nextid (cfg : Cfg) (w : World) (op : Op) : (step cfg w op).1.fidg.n
     repeat' split
     all_goals simp [regF]
   | hclose id =>
-    simp only [step, hclose]
+    simp only [step, hclose, hcloseRec]
     repeat' split
     all_goals (simp only [aRem]; repeat' split)
     all_goals simp
@@ -1120,7 +1137,7 @@ theorem step_traceOk (cfg : Cfg) (w : World) (op : Op) (h : TraceOk w) : TraceOk
       | exact h
       | (apply traceOk_regF; exact traceOk_same h rfl rfl rfl)
   | hclose id =>
-    simp only [step, hclose]
+    simp only [step, hclose, hcloseRec]
     repeat' split
     all_goals first
       | exact h
@@ -1144,6 +1161,211 @@ theorem run_traceOk (cfg : Cfg) (w : World) (ops : List Op) (h : TraceOk w) : Tr
   induction ops generalizing w with
   | nil => exact h
   | cons op ops ih => exact ih _ (step_traceOk cfg w op h)
+
+
+/-! ## with the per-id test of `Hclose` no access record is orphaned and no attach count is lost -/
+
+theorem mem_eraseP_of_ne {α} (p : α → Bool) (l : List α) (x : α) (hx : x ∈ l) (hp : p x = false) : x ∈ l.eraseP p := by
+  induction l with
+  | nil => cases hx
+  | cons a t ih =>
+    by_cases hpa : p a = true
+    · simp only [List.eraseP_cons, hpa, cond_true]
+      rcases List.mem_cons.mp hx with rfl | h
+      · simp [hp] at hpa
+      · exact h
+    · have : p a = false := by simpa using hpa
+      simp only [List.eraseP_cons, this, cond_false]
+      rcases List.mem_cons.mp hx with rfl | h
+      · exact List.mem_cons_self
+      · exact List.mem_cons_of_mem _ (ih h)
+
+/-- with the per-id test of `Hclose`: every access record was started through a file id that is still live, nothing leaked -/
+structure NoOrphan (w : World) : Prop where
+  alive : ∀ a ∈ w.arecs, ∃ i ∈ w.fidg.live, i.id = a.2.fileId
+  noleak : w.leaked = []
+  fpos : ∀ e ∈ w.frecs, 1 ≤ e.1
+  npos : 1 ≤ w.nobj
+
+theorem init_noOrphan : NoOrphan World.init := by
+  refine ⟨?_, rfl, ?_, by simp [World.init]⟩ <;> intro x hx <;> simp [World.init] at hx
+
+/-- a live file id whose record exists resolves -/
+theorem lookF_of_live {cfg : Cfg} {w : World} (hw : WF w) (hn : NoOrphan w) {id : Nat} (hg : ATOM_TO_GROUP id = FIDGROUP)
+    {i : Info} (hi : i ∈ w.fidg.live) (hid : i.id = id) : ∃ p r, lookF cfg w id = .file p r := by
+  have hsome : (w.fidg.live.find? (fun e => e.id == id)).isSome := by
+    rw [List.find?_isSome]; exact ⟨i, hi, by simp [hid]⟩
+  obtain ⟨e, he⟩ := Option.isSome_iff_exists.mp hsome
+  have hem := List.mem_of_find?_eq_some he
+  obtain ⟨rec, hrec, hreq⟩ := hw.fobj e hem
+  have hget : getF w e.obj = some rec.2 := getF_of_mem hw.fkeys (by rw [← hreq]; cases rec; exact hrec)
+  have hpos := hn.fpos rec hrec
+  have hrc := (hw.refc rec hrec).2
+  refine ⟨e.obj, rec.2, ?_⟩
+  unfold lookF
+  have h1 : (cfg.kindChecked && ATOM_TO_GROUP id != FIDGROUP) = false := by simp [hg]
+  have haobj : aObj w id = e.obj := by unfold aObj grpOf; simp [hg, he]
+  have hnn : (e.obj == NULL) = false := by simp [NULL]; omega
+  have hr0 : (rec.2.refcount == 0) = false := by simp; omega
+  simp only [h1, Bool.false_eq_true, if_false, haobj, hnn, hget, hr0]
+
+theorem hopen_noOrphan (w : World) (path acc : Nat) (osOk : Bool) (hw : WF w) (h : NoOrphan w) : NoOrphan (hopen w path acc osOk).1 := by
+  unfold hopen
+  split
+  · exact h
+  · split
+    · rename_i p hp
+      split
+      · rename_i r hr
+        split
+        · exact h
+        · have hmem := getF_mem hr
+          refine ⟨?_, h.noleak, ?_, h.npos⟩
+          · intro a ha
+            obtain ⟨i, hi, hid⟩ := h.alive a ha
+            exact ⟨i, by simp [regF, hi], hid⟩
+          · intro e he
+            simp only [regF] at he
+            rcases mem_setF he with ⟨rfl, _⟩ | ⟨he', _⟩
+            · exact h.fpos (p, r) hmem
+            · exact h.fpos e he'
+      · exact h
+    · split
+      · exact h
+      · refine ⟨?_, h.noleak, ?_, by simp only [regF]; have := h.npos; omega⟩
+        · intro a ha
+          obtain ⟨i, hi, hid⟩ := h.alive a ha
+          exact ⟨i, by simp [regF, hi], hid⟩
+        · intro e he
+          simp only [regF, List.mem_append, List.mem_singleton] at he
+          rcases he with he | rfl
+          · exact h.fpos e he
+          · exact h.npos
+
+theorem hclose_noOrphan (cfg : Cfg) (hk : cfg.kindChecked = true) (hc : cfg.closeChecksAids = true) (w : World) (id : Nat)
+    (h : NoOrphan w) : NoOrphan (hclose cfg w id).1 := by
+  unfold hclose
+  split
+  · exact h
+  · exact h
+  · rename_i p r hl
+    obtain ⟨hg, _, hget, _⟩ := lookF_file hk hl
+    have hmem := getF_mem hget
+    split
+    · exact h
+    · rename_i hany
+      have hno : ∀ a ∈ w.arecs, a.2.fileId ≠ id := by
+        intro a ha heq
+        apply hany
+        simp only [hc, Bool.true_and, List.any_eq_true]
+        exact ⟨a, ha, by simp [heq]⟩
+      have keep : ∀ a ∈ w.arecs, ∃ i ∈ w.fidg.live.eraseP (fun e => e.id == id), i.id = a.2.fileId := by
+        intro a ha
+        obtain ⟨i, hi, hid⟩ := h.alive a ha
+        refine ⟨i, mem_eraseP_of_ne _ _ i hi ?_, hid⟩
+        have := hno a ha
+        simp only [beq_eq_false_iff_ne, ne_eq]; rw [hid]; exact this
+      unfold hcloseRec
+      split
+      · split
+        · exact h
+        · obtain ⟨r1, r2, r3, r4, r5, r6⟩ := aRem_fid (delF w p) id hg
+          simp only [delF_fidg, delF_aidg, delF_arecs, delF_nobj, delF_leaked] at r1 r2 r4 r5 r6
+          refine ⟨?_, by rw [r6]; exact h.noleak, ?_, by rw [r5]; exact h.npos⟩
+          · intro a ha; rw [r4] at ha; rw [r1]; exact keep a ha
+          · intro e he; rw [r3] at he; exact h.fpos e (mem_delF.mp he).1
+      · obtain ⟨r1, r2, r3, r4, r5, r6⟩ := aRem_fid (setF w p { r with refcount := r.refcount - 1 }) id hg
+        simp only [setF_fidg, setF_aidg, setF_arecs, setF_nobj, setF_leaked] at r1 r2 r4 r5 r6
+        refine ⟨?_, by rw [r6]; exact h.noleak, ?_, by rw [r5]; exact h.npos⟩
+        · intro a ha; rw [r4] at ha; rw [r1]; exact keep a ha
+        · intro e he; rw [r3] at he
+          rcases mem_setF he with ⟨rfl, _⟩ | ⟨he', _⟩
+          · exact h.fpos (p, r) hmem
+          · exact h.fpos e he'
+
+theorem startAccess_noOrphan (cfg : Cfg) (hk : cfg.kindChecked = true) (w : World) (id : Nat) (fnd wr : Bool) (h : NoOrphan w) :
+    NoOrphan (startAccess cfg w id fnd wr).1 := by
+  unfold startAccess
+  split
+  · exact h
+  · exact h
+  · rename_i p r hl
+    obtain ⟨hg, ⟨e0, hfind, hobj⟩, hget, _⟩ := lookF_file hk hl
+    have hmem := getF_mem hget
+    have he0 : e0 ∈ w.fidg.live := List.mem_of_find?_eq_some hfind
+    have he0id : e0.id = id := by have := List.find?_some hfind; simpa using this
+    split
+    · exact h
+    · split
+      · exact h
+      · refine ⟨?_, h.noleak, ?_, by simp only [regA]; have := h.npos; omega⟩
+        · intro a ha
+          simp only [regA, List.mem_append, List.mem_singleton] at ha
+          simp only [regA, setF_fidg]
+          rcases ha with ha | rfl
+          · exact h.alive a ha
+          · exact ⟨e0, he0, he0id⟩
+        · intro e he
+          simp only [regA] at he
+          rcases mem_setF he with ⟨rfl, _⟩ | ⟨he', _⟩
+          · exact h.fpos (p, r) hmem
+          · exact h.fpos e he'
+
+theorem endAccess_noOrphan (cfg : Cfg) (hk : cfg.kindChecked = true) (w : World) (id : Nat) (hw : WF w) (ha : WFA w) (h : NoOrphan w) :
+    NoOrphan (endAccess cfg w id).1 := by
+  unfold endAccess
+  split
+  · exact h
+  · exact h
+  · rename_i q a hl
+    obtain ⟨hg, ⟨e0, hfind, hobj⟩, hget⟩ := lookA_acc hk hl
+    obtain ⟨r1, r2, r3, r4, r5, r6⟩ := aRem_aid w id hg
+    have hmem := getA_mem hget
+    have hmid := endAccess_mid_wf w id q a hw hg e0 hfind hobj hget
+    have hmidN : NoOrphan (delA (aRem w id) q) := by
+      refine ⟨?_, by simp only [delA_leaked, r6]; exact h.noleak, ?_, by simp only [delA_nobj, r5]; exact h.npos⟩
+      · intro b hb
+        have hb' := (mem_delA.mp hb).1
+        rw [r4] at hb'
+        simp only [delA_fidg, r2]
+        exact h.alive b hb'
+      · intro e he; simp only [delA_frecs, r3] at he; exact h.fpos e he
+    -- the file id the access was started through is live, so the lookup succeeds
+    obtain ⟨i, hi, hid⟩ := h.alive (q, a) hmem
+    obtain ⟨k, _, hk2⟩ := ha.issued (q, a) hmem
+    have hgF : ATOM_TO_GROUP a.fileId = FIDGROUP := by
+      simp only [] at hk2; rw [hk2]; exact group_MAKE_ATOM FIDGROUP k (by decide)
+    have hi' : i ∈ (delA (aRem w id) q).fidg.live := by simp only [delA_fidg, r2]; exact hi
+    obtain ⟨p, r, hlf⟩ := lookF_of_live (cfg := cfg) hmid hmidN hgF hi' hid
+    rw [hlf]
+    obtain ⟨_, _, hgetF, _⟩ := lookF_file hk hlf
+    have hmemF := getF_mem hgetF
+    refine ⟨?_, hmidN.noleak, ?_, hmidN.npos⟩
+    · intro b hb; simp only [setF_arecs] at hb; simp only [setF_fidg]; exact hmidN.alive b hb
+    · intro e he
+      rcases mem_setF he with ⟨rfl, _⟩ | ⟨he', _⟩
+      · exact hmidN.fpos (p, r) hmemF
+      · exact hmidN.fpos e he'
+
+theorem step_noOrphan (cfg : Cfg) (hk : cfg.kindChecked = true) (hc : cfg.closeChecksAids = true) (w : World) (op : Op)
+    (hw : WF w) (ha : WFA w) (h : NoOrphan w) : NoOrphan (step cfg w op).1 := by
+  cases op with
+  | nextread id f => simp only [step, nextRead_state]; exact h
+  | hopen p a o => exact hopen_noOrphan w p a o hw h
+  | hclose id => exact hclose_noOrphan cfg hk hc w id h
+  | startaccess id f wr => exact startAccess_noOrphan cfg hk w id f wr h
+  | endaccess id => exact endAccess_noOrphan cfg hk w id hw ha h
+  | usefid id => exact h
+  | useaid id => exact h
+
+theorem run_noOrphan (cfg : Cfg) (hk : cfg.kindChecked = true) (hc : cfg.closeChecksAids = true) (w : World) (ops : List Op)
+    (hw : WF w) (ha : WFA w) (h : NoOrphan w) (hs : w.fidg.nextid + ops.length < 2 ^ 28) : NoOrphan (run cfg w ops) := by
+  induction ops generalizing w with
+  | nil => exact h
+  | cons op ops ih =>
+    have h1 := step_nextid cfg w op
+    simp only [List.length_cons] at hs
+    exact ih _ (step_wf cfg hk w op hw) (step_wfa cfg hk w op hw (by omega) ha) (step_noOrphan cfg hk hc w op hw ha h) (by omega)
 
 
 end H4.Handles
